@@ -1,4 +1,4 @@
-\* C04 thorough (simulation): 2 threads, <= 4 spans, <= 5 frames, 2 tasks (sibling async spans interleaved at poll boundaries), nesting <= 3; random behaviours replayed.
+\* C04 thorough (simulation): 2 threads, <= 4 spans, <= 5 frames, 2 tasks (sibling async spans interleaved at poll boundaries), nesting <= 3; random behaviours replayed. Span nodes with explicit trace_id / span_parent / span_id included.
 SPECIFICATION SSpec
 CONSTANTS
     NThreads = 2
@@ -6,6 +6,7 @@ CONSTANTS
     InstKind <- MC_Kind1
     NKeys = 3
     PropChoices <- MC_None
+    DupChoices <- MC_NoDups
     Kinds <- MC_None
     Forms <- MC_None
     MaxFrames = 5
@@ -17,8 +18,8 @@ CONSTANTS
     IncomingKinds <- MC_IncAll
     WithLazy = TRUE
     HasRng = TRUE
-    ExplicitKinds <- MC_ExNone
-    PushLastWins = TRUE
+    ExplicitKinds <- MC_ExBoth
+    PushLastWins = FALSE
     WithCancel = TRUE
     CancelOwnIds = FALSE
     CtxForms <- MC_Forms
